@@ -428,6 +428,14 @@ func (p *Path) timerRecvReady(fr *frame, instr ssa.Instruction, ch *Chan, must b
 
 func (p *Path) selectOp(fr *frame, instr *ssa.Select) Value {
 	ts := p.e.ts
+	// a select inside a loop is a loop head without a symbolic branch: bound its unwinding too
+	if fr.visits == nil {
+		fr.visits = map[*ssa.BasicBlock]int{}
+	}
+	fr.visits[instr.Block()]++
+	if fr.visits[instr.Block()] > p.cfg.Unwind {
+		panic(pathEnd{"unwind", fmt.Sprintf("unwinding bound %d exceeded at select %s", p.cfg.Unwind, fr.pos(instr))})
+	}
 	p.yield(fr, instr, "select")
 	type cs struct {
 		ch   *Chan
